@@ -13,5 +13,22 @@ BreakUnder(block, insupp) ==
            \/ s.k = "with" /\ BreakUnder(s.body, insupp \/ s.supp)
            \/ s.k = "try" /\ (BreakUnder(s.body, TRUE) \/ BreakUnder(s.orelse, TRUE) \/ BreakUnder(s.final, TRUE)
                               \/ \E j \in 1..Len(s.handlers) : BreakUnder(s.handlers[j], TRUE))
+
+\* the finally slice: a try statement with a finally clause that reads a variable which a handler / the else clause /
+\* the try body assigns (the "try failed" state of the finally clause is built from those blocks)
+RECURSIVE FinalReads(_)
+FinalReads(block) ==
+    \E i \in 1..Len(block) :
+        LET s == block[i]
+        IN \/ s.k = "try" /\ s.final # << >> /\ HasKind(s.final, {"use", "aug"})
+              /\ (\/ \E j \in 1..Len(s.handlers) : HasKind(s.handlers[j], {"assign", "aug", "exas"})
+                  \/ HasKind(s.orelse, {"assign", "aug"}) \/ HasKind(s.body, {"assign", "aug"}))
+           \/ s.k \in IfKinds \cup LoopKinds /\ (FinalReads(s.body) \/ FinalReads(s.orelse))
+           \/ s.k \in WithKinds /\ FinalReads(s.body)
+           \/ s.k = "try" /\ (FinalReads(s.body) \/ FinalReads(s.orelse) \/ FinalReads(s.final)
+                              \/ \E j \in 1..Len(s.handlers) : FinalReads(s.handlers[j]))
+EmitFinally == (done /\ (FinalReads(Prog) \/ (JumpThroughFinally(Prog, FALSE) /\ UsesOf(Prog) # {}))) => PrintT(ToJson([prog |-> Prog]))
+\* the loop-carried slice: one loop whose body contains a continue (definitions travel along the back edge)
+EmitLoopCont == (done /\ HasKind(Prog, {"continue"}) /\ UsesOf(Prog) # {}) => PrintT(ToJson([prog |-> Prog]))
 EmitLoopExit == (done /\ BreakUnder(Prog, FALSE) /\ UsesOf(Prog) # {}) => PrintT(ToJson([prog |-> Prog]))
 =============================================================================
